@@ -234,13 +234,6 @@ func (g *grpcClient) NewConn(
 	// The header map may be the caller's (a Request that is being re-sent): what
 	// an earlier call announced doesn't apply to this one.
 	delete(header, grpcHeaderTimeout)
-	if deadline, ok := ctx.Deadline(); ok {
-		if encodedDeadline, err := grpcEncodeTimeout(time.Until(deadline)); err == nil {
-			// Tests verify that the error in encodeTimeout is unreachable, so we
-			// don't need to handle the error case.
-			header[grpcHeaderTimeout] = []string{encodedDeadline}
-		}
-	}
 	duplexCall := newDuplexHTTPCall(
 		ctx,
 		g.HTTPClient,
@@ -248,6 +241,17 @@ func (g *grpcClient) NewConn(
 		spec,
 		header,
 	)
+	// A stream may be created well before its request is sent (on the first
+	// Send): announce the time that remains then.
+	duplexCall.onRequestSend = func(request *http.Request) {
+		if deadline, ok := ctx.Deadline(); ok {
+			if encodedDeadline, err := grpcEncodeTimeout(time.Until(deadline)); err == nil {
+				// Tests verify that the error in encodeTimeout is unreachable, so we
+				// don't need to handle the error case.
+				request.Header[grpcHeaderTimeout] = []string{encodedDeadline}
+			}
+		}
+	}
 	conn := &grpcClientConn{
 		spec:             spec,
 		duplexCall:       duplexCall,
